@@ -1,7 +1,137 @@
-(* C17 — property theorems.  Only statements closed by [exact]; proofs live in Vector/*.v. *)
-From Coq Require Import List Arith.
+(* C17 — arrays are immutable under sharing.  Property theorems: only statements closed by
+   [exact]; the proofs live in Vector/*.v.  [B] is the branching factor (any B >= 2, not only the
+   powers of two the Rust crate admits), [A] the element type. *)
+From Coq Require Import List Arith Bool.
 Import ListNotations.
-From NV Require Import Vector.Model Vector.History Vector.Proofs.
+From NV Require Import Vector.Model Vector.History Vector.Wf Vector.HistoryAbs Vector.HistoryProofs Vector.Proofs.
 
-Theorem C17_new_wf : forall B, 2 <= B -> check_invariants B (@vnew nat) = true.
-Proof. exact vnew_wf. Qed.
+(* ---- the property: histories over families of handles refine independent lists *)
+Theorem C17_history_refines : forall B ops, 2 <= B ->
+  Forall2 (fun (x : res * istate) (y : res * sstate) =>
+             fst x = fst y /\ abs (snd x) = snd y /\ all_wf B (snd x))
+          (irun B iinit ops) (srun sinit ops).
+Proof. exact history_refines_stmt. Qed.
+
+Theorem C17_history_refines_from : forall B st ops, 2 <= B -> all_wf B st ->
+  Forall2 (fun (x : res * istate) (y : res * sstate) =>
+             fst x = fst y /\ abs (snd x) = snd y /\ all_wf B (snd x))
+          (irun B st ops) (srun (abs st) ops).
+Proof. exact history_refines_from_stmt. Qed.
+
+Theorem C17_frame_vec : forall B st o j, 2 <= B -> all_wf B st ->
+  match o with
+  | VPush k _ | VPop k | VSet k _ _ | VTrunc k _ | VExtend k _ | VDrop k => j <> k
+  | _ => True
+  end ->
+  j < length (ivs st) ->
+  option_map (@to_list nat) (nth j (ivs (fst (istep B st o))) None)
+  = option_map (@to_list nat) (nth j (ivs st) None).
+Proof. exact frame_vec_stmt. Qed.
+
+Theorem C17_frame_slice : forall B st o j, 2 <= B -> all_wf B st ->
+  match o with
+  | SPush k _ | SPop k | SSet k _ _ | SSlice k _ _ | SExtend k _ | SExtendFrom k _ | SDrop k => j <> k
+  | _ => True
+  end ->
+  j < length (iss st) ->
+  option_map (@sl_list nat) (nth j (iss (fst (istep B st o))) None)
+  = option_map (@sl_list nat) (nth j (iss st) None).
+Proof. exact frame_slice_stmt. Qed.
+
+(* ---- the invariant and the executable check of the crate *)
+Theorem C17_new_wf : forall A B, wf B (@vnew A) /\ to_list (@vnew A) = [].
+Proof. exact new_wf_stmt. Qed.
+
+Theorem C17_wf_check_invariants : forall A B (v : @vec A), 2 <= B -> wf B v -> check_invariants B v = true.
+Proof. exact wf_check_invariants_stmt. Qed.
+
+Theorem C17_wf_length : forall A B (v : @vec A), 2 <= B -> wf B v -> length (to_list v) = vlen v.
+Proof. exact wf_length_stmt. Qed.
+
+(* ---- every Vector operation keeps [wf], does not panic in contract, and refines the list operation *)
+Theorem C17_push : forall A B (v : @vec A) x, 2 <= B -> wf B v ->
+  exists v', vpush B v x = Some v' /\ wf B v' /\ to_list v' = to_list v ++ [x] /\ vlen v' = vlen v + 1.
+Proof. exact push_stmt. Qed.
+
+Theorem C17_pop : forall A B (v : @vec A), 2 <= B -> wf B v ->
+  exists v', vpop v = Some (last_opt (to_list v), v') /\ wf B v'
+             /\ to_list v' = removelast (to_list v) /\ vlen v' = vlen v - 1
+             /\ (to_list v = [] -> v' = v).
+Proof. exact pop_stmt. Qed.
+
+Theorem C17_get : forall A B (v : @vec A) idx, 2 <= B -> wf B v ->
+  vget B v idx = nth_error (to_list v) idx.
+Proof. exact get_stmt. Qed.
+
+Theorem C17_set : forall A B (v : @vec A) idx x, 2 <= B -> wf B v -> idx < vlen v ->
+  exists v', vset B v idx x = Some v' /\ wf B v' /\ to_list v' = list_set (to_list v) idx x
+             /\ vlen v' = vlen v.
+Proof. exact set_stmt. Qed.
+
+Theorem C17_set_out_of_bounds : forall A B (v : @vec A) idx x, 2 <= B -> vlen v <= idx ->
+  vset B v idx x = None.
+Proof. exact set_out_of_bounds_stmt. Qed.
+
+Theorem C17_truncate : forall A B (v : @vec A) len, 2 <= B -> wf B v ->
+  exists v', vtruncate B v len = Some v' /\ wf B v' /\ to_list v' = firstn len (to_list v)
+             /\ vlen v' = Nat.min len (vlen v).
+Proof. exact truncate_stmt. Qed.
+
+Theorem C17_extend : forall A B (v : @vec A) it, 2 <= B -> wf B v ->
+  exists v', vextend B v it = Some v' /\ wf B v' /\ to_list v' = to_list v ++ it
+             /\ vlen v' = vlen v + length it.
+Proof. exact extend_stmt. Qed.
+
+Theorem C17_iter_from : forall A B (v : @vec A) idx, 2 <= B -> wf B v ->
+  viter_from B v idx = if idx <=? vlen v then Some (skipn idx (to_list v)) else None.
+Proof. exact iter_from_stmt. Qed.
+
+(* ---- the slice layer *)
+Theorem C17_slice_new : forall A B, 2 <= B -> swf B (@snew A) /\ sl_list (@snew A) = [].
+Proof. exact slice_new_stmt. Qed.
+
+Theorem C17_slice_from_list : forall A B (l : list A), 2 <= B ->
+  exists s', sfrom_list B l = Some s' /\ swf B s' /\ sl_list s' = l.
+Proof. exact slice_from_list_stmt. Qed.
+
+Theorem C17_slice_push : forall A B (s : @slice A) x, 2 <= B -> swf B s ->
+  exists s', spush B s x = Some s' /\ swf B s' /\ sl_list s' = sl_list s ++ [x].
+Proof. exact slice_push_stmt. Qed.
+
+Theorem C17_slice_pop : forall A B (s : @slice A), 2 <= B -> swf B s ->
+  exists s', spop B s = Some (last_opt (sl_list s), s') /\ swf B s'
+             /\ sl_list s' = removelast (sl_list s) /\ (sl_list s = [] -> s' = s).
+Proof. exact slice_pop_stmt. Qed.
+
+Theorem C17_slice_get : forall A B (s : @slice A) idx, 2 <= B -> swf B s ->
+  sget B s idx = nth_error (sl_list s) idx.
+Proof. exact slice_get_stmt. Qed.
+
+Theorem C17_slice_set : forall A B (s : @slice A) idx x, 2 <= B -> swf B s -> idx < slen s ->
+  exists s', sset B s idx x = Some s' /\ swf B s' /\ sl_list s' = list_set (sl_list s) idx x.
+Proof. exact slice_set_stmt. Qed.
+
+Theorem C17_slice_slice : forall A B (s : @slice A) a b, 2 <= B -> swf B s ->
+  if (a <=? b) && (b <=? slen s)
+  then exists s', sslice s a b = Some s' /\ swf B s'
+                  /\ sl_list s' = firstn (b - a) (skipn a (sl_list s))
+  else sslice s a b = None.
+Proof. exact slice_slice_stmt. Qed.
+
+Theorem C17_slice_extend : forall A B (s : @slice A) it, 2 <= B -> swf B s ->
+  exists s', sextend B s it = Some s' /\ swf B s' /\ sl_list s' = sl_list s ++ it.
+Proof. exact slice_extend_stmt. Qed.
+
+Theorem C17_slice_iter : forall A B (s : @slice A), 2 <= B -> swf B s -> siter B s = Some (sl_list s).
+Proof. exact slice_iter_stmt. Qed.
+
+Theorem C17_slice_length : forall A B (s : @slice A), 2 <= B -> swf B s -> length (sl_list s) = slen s.
+Proof. exact slice_length_stmt. Qed.
+
+(* ---- shifts and masks of the Rust code vs div/mod of the model, for N = 2^k *)
+Theorem C17_bit_ops_agree : forall k idx h,
+  Nat.land (Nat.shiftr idx (Nat.log2 (2 ^ k) * h)) (2 ^ k - 1) = extract_index (2 ^ k) idx h.
+Proof. exact bit_ops_agree_stmt. Qed.
+
+Theorem C17_leaf_mask_agrees : forall k idx, Nat.land idx (2 ^ k - 1) = idx mod 2 ^ k.
+Proof. exact leaf_mask_agrees_stmt. Qed.
